@@ -54,6 +54,8 @@ var gfGroups = map[string]struct{ file string }{
 	"gocollat":  {"GoCollat.v"},  // provider registration and shutdown (collateral)
 	"gornsown":  {"GoRnsOwn.v"},  // rns: the handlers that change a name's owner or move bid escrow
 	"gofiletree": {"GoFiletree.v"}, // filetree: who may delete, hand over, post and change access lists
+	"gonotif":   {"GoNotif.v"},   // notifications: when a notification is stored
+	"goforms":   {"GoForms.v"},   // storage: what a signature on an attestation / report form does
 }
 
 func init() {
@@ -84,6 +86,9 @@ type gfFunc struct {
 	// literal passed to that call (a bare `return` ends the unit), "range:<expr>" into the body of the range
 	// statement over that expression (`continue` ends the unit).  Variables of the enclosing code are reads.
 	Path []string
+	// FieldVars: fields of a record fetched from the store that the function updates in place before writing the
+	// record back (`payInfo.SpaceUsed -= ...`): each is a translated variable initialised with the given input
+	FieldVars []gfInput
 	// RespField: the function returns a response record next to its error; this boolean field of the returned
 	// `&T{...}` literal becomes the first component of the translated result (false when the field is absent)
 	RespField string
@@ -266,6 +271,59 @@ var gfFuncs = []gfFunc{
 		Ignore: append([]string{`^ctx\.EventManager\(\)\.EmitEvent\(`}, gfLogging...),
 		StmtEvents: []gfEffect{{Match: "resetEditors[ownerEditorAddress] = ownerKey", Tag: "list-becomes-the-signers-own-entry"}},
 		Effects: []gfEffect{{Match: "file.EditAccess", Tag: "set-list"}, {Match: "k.SetFiles", Tag: "set-file"}}},
+	// ---- x/storage/keeper/files.go: removing a file hands its footprint back to the plan that paid for it (C07)
+	{Group: "goprice", Pkg: "x/storage/keeper", Recv: "Keeper", Name: "RemoveFile", Coq: "gen_RemoveFile",
+		Inputs: []gfInput{{"file_found", "file_found", "bool"}, {"file.Expires", "expires", "Z"}, {"file.FileSize", "size", "Z"}, {"file.MaxProofs", "maxp", "Z"},
+			{"plan_found", "plan_found", "bool"}, {"used", "used", "Z"}, {"start", "start", "Z"}},
+		FieldVars: []gfInput{{"payInfo.SpaceUsed", "used", "Z"}},
+		ReadStmts: []string{`file, found := k.GetFile(ctx, merkle, owner, start) => found=file_found`, `payInfo, found := k.GetStoragePaymentInfo(ctx, file.Owner) => found=plan_found`},
+		StmtEvents: []gfEffect{{Match: "for _, proof := range file.Proofs", Tag: "remove-proof-records"}},
+		Effects: []gfEffect{{Match: "k.SetStoragePaymentInfo", Tag: "set-plan-used", Args: []string{"payInfo.SpaceUsed"}},
+			{Match: "k.removeFilePrimary", Tag: "remove-file-primary"}, {Match: "k.removeFileSecondary", Tag: "remove-file-secondary"}}},
+	// ---- x/rns/keeper: listing and delisting (C08: who may list, whose listing may be withdrawn)
+	{Group: "gornsown", Pkg: "x/rns/keeper", Recv: "msgServer", Name: "List", Coq: "gen_List",
+		Inputs: []gfInput{{"found", "listed", "bool"}, {"parse_ok", "parse_ok", "bool"}, {"nfound", "name_found", "bool"}, {"name.Value != msg.Creator", "not_owner", "bool"},
+			{"ctx.BlockHeight()", "h", "Z"}, {"name.Locked", "locked", "Z"}, {"name.Expires", "expires", "Z"}},
+		ReadStmts: []string{`ctx := sdk.UnwrapSDKContext(goCtx)`, `mname := strings.ToLower(msg.Name)`, `_, found := k.GetForsale(ctx, mname)`,
+			`n, tld, err := GetNameAndTLD(mname) => err=parse_ok`, `name, nfound := k.GetNames(ctx, n, tld)`},
+		Ignore: append([]string{`^newsale := types\.Forsale\{`, `^ctx\.EventManager\(\)\.EmitEvent\(`}, gfLogging...),
+		Effects: []gfEffect{{Match: "k.SetForsale", Tag: "set-listing"}}},
+	{Group: "gornsown", Pkg: "x/rns/keeper", Recv: "msgServer", Name: "Delist", Coq: "gen_Delist",
+		Inputs: []gfInput{{"found", "listed", "bool"}, {"parse_ok", "parse_ok", "bool"}, {"nfound", "name_found", "bool"}, {"sale.Owner != msg.Creator", "not_lister", "bool"},
+			{"name.Value != sale.Owner", "stale_listing", "bool"}},
+		ReadStmts: []string{`ctx := sdk.UnwrapSDKContext(goCtx)`, `mname := strings.ToLower(msg.Name)`, `sale, found := k.GetForsale(ctx, mname)`,
+			`n, tld, err := GetNameAndTLD(mname) => err=parse_ok`, `name, nfound := k.GetNames(ctx, n, tld)`},
+		Ignore: append([]string{`^ctx\.EventManager\(\)\.EmitEvent\(`}, gfLogging...),
+		Effects: []gfEffect{{Match: "k.RemoveForsale", Tag: "remove-listing"}}},
+	// ---- x/notifications/keeper: when a notification is stored (C18)
+	{Group: "gonotif", Pkg: "x/notifications/keeper", Recv: "msgServer", Name: "CreateNotification", Coq: "gen_CreateNotification",
+		Inputs: []gfInput{{"json.Valid([]byte(msg.Contents))", "json_ok", "bool"}, {"resolve_ok", "resolve_ok", "bool"}, {"k.IsBlocked(ctx, address.String(), sender)", "blocked", "bool"},
+			{"found", "slot_taken", "bool"}},
+		ReadStmts: []string{`ctx := sdk.UnwrapSDKContext(goCtx)`, `sender := msg.Creator`,
+			`if senderAddress, err := sdk.AccAddressFromBech32(msg.Creator); err == nil { sender = senderAddress.String() }`, `owner := msg.To`,
+			`address, err := k.rns.Resolve(ctx, owner) => err=resolve_ok`, `_, found := k.GetNotification(ctx, noti.To, noti.From, noti.Time)`},
+		Ignore: append([]string{`^noti := types\.Notification\{`, `^ctx\.EventManager\(\)\.EmitEvent\(`}, gfLogging...),
+		Effects: []gfEffect{{Match: "k.SetNotification", Tag: "store-notification"}}},
+	// ---- x/storage/keeper: signatures on attestation and report forms (C14, C01).  The loop that marks the signer and
+	// counts the completed entries is a read: whether the signer is named on the form, and the count after marking
+	{Group: "goforms", Pkg: "x/storage/keeper", Recv: "Keeper", Name: "Attest", Coq: "gen_Attest",
+		Inputs: []gfInput{{"form_found", "form_found", "bool"}, {"named", "named", "bool"}, {"count_after", "count", "Z"}, {"k.GetParams(ctx).AttestMinToPass", "min", "Z"},
+			{"file_found", "file_found", "bool"}, {"prover_ok", "prover_ok", "bool"}, {"ctx.BlockHeight()", "h", "Z"}, {"start", "start", "Z"}},
+		ReadStmts: []string{`form, found := k.GetAttestationForm(ctx, prover, merkle, owner, start) => found=form_found`, `attestations := form.Attestations`,
+			`for _, attestation := range attestations { if attestation.Provider == creator { attestation.Complete = true done = true } if attestation.Complete { count++ } } => done=named,count=count_after`,
+			`deal, found := k.GetFile(ctx, form.Merkle, form.Owner, form.Start) => found=file_found`, `proof, err := deal.GetProver(ctx, k, form.Prover) => err=prover_ok`},
+		Ignore: append([]string{`^ctx\.EventManager\(\)\.EmitEvent\(`}, gfLogging...),
+		Effects: []gfEffect{{Match: "form.Attestations", Tag: "marks-onto-form"}, {Match: "k.SetAttestationForm", Tag: "store-form"},
+			{Match: "proof.LastProven", Tag: "refresh-last-proven", Args: []string{"$rhs"}}, {Match: "k.SetProof", Tag: "set-proof"}, {Match: "k.RemoveAttestation", Tag: "consume-form"}}},
+	{Group: "goforms", Pkg: "x/storage/keeper", Recv: "Keeper", Name: "DoReport", Coq: "gen_DoReport",
+		Inputs: []gfInput{{"form_found", "form_found", "bool"}, {"named", "named", "bool"}, {"count_after", "count", "Z"}, {"k.GetParams(ctx).AttestMinToPass", "min", "Z"},
+			{"file_found", "file_found", "bool"}, {"start", "start", "Z"}},
+		ReadStmts: []string{`form, found := k.GetReportForm(ctx, prover, merkle, owner, start) => found=form_found`, `attestations := form.Attestations`,
+			`for _, attestation := range attestations { if attestation.Provider == creator { attestation.Complete = true done = true } if attestation.Complete { count++ } } => done=named,count=count_after`,
+			`deal, found := k.GetFile(ctx, merkle, owner, start) => found=file_found`},
+		Ignore: gfLogging,
+		Effects: []gfEffect{{Match: "form.Attestations", Tag: "marks-onto-form"}, {Match: "k.SetReportForm", Tag: "store-form"},
+			{Match: "k.RemoveReport", Tag: "consume-form"}, {Match: "deal.RemoveProver", Tag: "remove-prover"}}},
 	// ---- x/jklmint: the emission schedule and the split (C13, C05)
 	{Group: "gomint", Pkg: "x/jklmint/utils", Name: "int64ToDec", Coq: "gen_int64ToDec", Inputs: []gfInput{{"i", "i", "Z"}}},
 	{Group: "gomint", Pkg: "x/jklmint/utils", Name: "GetMintForBlock", Coq: "gen_GetMintForBlock",
@@ -421,6 +479,7 @@ type gfTr struct {
 	unitKind string // "" (the whole function), "funclit" or "range"
 	resKeep  []bool // which results of the Go function are part of the translated result
 	named    []*types.Var // named results (a bare return returns their current values)
+	fieldVars map[string]string // source text of a field treated as a variable -> its Gallina name
 	ends     []func() string // what falling off the end of the current statement list means (join points of ifs)
 }
 
@@ -561,6 +620,9 @@ func (t *gfTr) expr(e ast.Expr) ([]gfBind, string, string, error) {
 		if o := info.Uses[id]; o != nil {
 			_, isLocal = t.names[o]
 		}
+	}
+	if fv, ok := t.fieldVars[t.src(e)]; ok {
+		return nil, fv, "Z", nil
 	}
 	if in, ok := t.reads[t.src(e)]; ok && !isLocal {
 		return nil, in.Coq, in.Ty, nil
@@ -1036,6 +1098,10 @@ func (t *gfTr) emitEvent(ef *gfEffect, rhs string, at ast.Node) ([]gfBind, strin
 			continue
 		}
 		// the argument is a variable or read of the enclosing function, named by its source text
+		if fv, ok := t.fieldVars[gfNorm(a)]; ok {
+			args = append(args, fv)
+			continue
+		}
 		if r, ok := t.reads[gfNorm(a)]; ok {
 			args = append(args, r.Coq)
 			continue
@@ -1098,10 +1164,7 @@ func (t *gfTr) seq(stmts []ast.Stmt) (string, error) {
 		}
 		pre := ""
 		if len(parts) == 2 {
-			as, ok := s.(*ast.AssignStmt)
-			if !ok {
-				return "", t.errf(s, "a read statement with assignments must be an assignment")
-			}
+			as, isAssign := s.(*ast.AssignStmt)
 			for _, kv := range strings.Split(parts[1], ",") {
 				f := strings.SplitN(strings.TrimSpace(kv), "=", 2)
 				in, ok := t.reads[f[1]]
@@ -1109,14 +1172,24 @@ func (t *gfTr) seq(stmts []ast.Stmt) (string, error) {
 					return "", t.errf(s, "read statement assigns %s from an unknown input %s", f[0], f[1])
 				}
 				done := false
-				for _, l := range as.Lhs {
-					if id, ok := l.(*ast.Ident); ok && id.Name == f[0] {
-						o := t.pkg.TypesInfo.Defs[id]
-						if o == nil {
-							o = t.pkg.TypesInfo.Uses[id]
+				if isAssign {
+					for _, l := range as.Lhs {
+						if id, ok := l.(*ast.Ident); ok && id.Name == f[0] {
+							o := t.pkg.TypesInfo.Defs[id]
+							if o == nil {
+								o = t.pkg.TypesInfo.Uses[id]
+							}
+							pre += "let " + t.nameOf(o) + " := " + in.Coq + " in\n"
+							done = true
 						}
-						pre += "let " + t.nameOf(o) + " := " + in.Coq + " in\n"
-						done = true
+					}
+				} else {
+					// a loop (or other statement) that computes translated variables declared before it
+					for o, n := range t.names {
+						if o.Name() == f[0] && o.Pos() < s.Pos() {
+							pre += "let " + n + " := " + in.Coq + " in\n"
+							done = true
+						}
 					}
 				}
 				if !done {
@@ -1349,6 +1422,27 @@ func (t *gfTr) ifelse(cond ast.Expr, body []ast.Stmt, els ast.Stmt, rest []ast.S
 		for _, o := range vars {
 			names = append(names, t.nameOf(o))
 		}
+		for _, nd := range []ast.Node{&ast.BlockStmt{List: body}, elsNode} {
+			if nd == nil {
+				continue
+			}
+			ast.Inspect(nd, func(m ast.Node) bool {
+				if as, ok := m.(*ast.AssignStmt); ok {
+					for _, l := range as.Lhs {
+						if fv, ok := t.fieldVars[t.src(l)]; ok {
+							dup := false
+							for _, n := range names {
+								dup = dup || n == fv
+							}
+							if !dup {
+								names = append(names, fv)
+							}
+						}
+					}
+				}
+				return true
+			})
+		}
 		if t.events {
 			names = append(names, "evs")
 		}
@@ -1523,6 +1617,24 @@ func (t *gfTr) assign(x *ast.AssignStmt, rest []ast.Stmt) (string, error) {
 		return "", t.errf(x, "assignment `%s` with several operands is not a configured read statement", t.src(x))
 	}
 	lhsText := t.src(x.Lhs[0])
+	if fv, ok := t.fieldVars[lhsText]; ok {
+		b, v, _, err := t.expr(x.Rhs[0])
+		if err != nil {
+			return "", err
+		}
+		rhs := v
+		switch x.Tok {
+		case token.ASSIGN:
+		case token.ADD_ASSIGN:
+			rhs = "i64add " + fv + " " + v
+		case token.SUB_ASSIGN:
+			rhs = "i64sub " + fv + " " + v
+		default:
+			return "", t.errf(x, "assignment operator %s on a field", x.Tok)
+		}
+		r, err := t.seq(rest)
+		return gfWrap(b, "let "+fv+" := "+rhs+" in\n"+r), err
+	}
 	// an assignment to something outside the function (a field behind a pointer, a map entry): a configured effect
 	if ef := t.effectFor(lhsText); ef != nil {
 		var b []gfBind
@@ -1716,6 +1828,12 @@ func genGoFuncs(c *Ctx, group string) (string, string, error) {
 		}
 		t := &gfTr{c: c, pkg: p, cfg: f, decl: d, byObj: byObj, names: map[types.Object]string{}, used: map[string]bool{}, reads: map[string]gfInput{}}
 		t.events = len(f.Effects) > 0 || len(f.StmtEvents) > 0
+		t.fieldVars = map[string]string{}
+		for _, fv := range f.FieldVars {
+			name := strings.NewReplacer(".", "_", "(", "", ")", "", "*", "").Replace(fv.Expr)
+			t.fieldVars[gfNorm(fv.Expr)] = name
+			t.used[name] = true
+		}
 		for _, in := range f.Inputs {
 			t.reads[gfNorm(in.Expr)] = in
 			t.used[in.Coq] = true
@@ -1805,6 +1923,9 @@ func genGoFuncs(c *Ctx, group string) (string, string, error) {
 		body, err := t.seq(stmts)
 		if err != nil {
 			return err
+		}
+		for _, fv := range f.FieldVars {
+			namedPre = "let " + t.fieldVars[gfNorm(fv.Expr)] + " := " + fv.Coq + " in\n" + namedPre
 		}
 		body = namedPre + body
 		params := ""
